@@ -151,6 +151,10 @@ def replay_history(bench, js, chk, policy='first_fit'):
         p = bench.route(a, b)
         rp = find_reversed_path(p) if bid else []
         rq = make_request(t, i)
+        if (i + len(js['hist'])) % 3 == 1:
+            # every third request comes with COPIES of the route elements (what compute_path_with_disjunction returns for the
+            # propagated paths): same oms_id, other objects - the spectrum state lives in oms_list, not in the route handed in
+            p, rp = copy.deepcopy((p, rp))
         try:
             pth_assign_spectrum([p], [rq], oms_list, [rp], policy=policy)
             st = getattr(rq, 'blocking_reason', None)
